@@ -98,6 +98,8 @@ def apply_op(scn, op):
         scn.interp._evaluator._context['c'] = op[1]
     elif k == 'queue':
         scn.interp.queue(Event(op[1], **dict(op[2])))
+    elif k in ('carry_on', 'swap'):
+        pass          # corpus script operations about listeners: no effect where there are none
     else:
         return scn.step_case(('exec',))
     return None
